@@ -19,7 +19,7 @@ func init() { sim.Register(c13{}) }
 
 func (c13) ID() string     { return "C13" }
 func (c13) Level() string  { return "exploration" }
-func (c13) QuickRuns() int { return 4000 }
+func (c13) QuickRuns() int { return 12000 }
 func (c13) Rule() string {
 	return "each evaluation is one history of <=30 bus operations on a fresh bus.Bus with up to 6 simulated devices: Attach over overlapping/nested/adjacent/re-attached/top-of-space ranges (some mis-aligned), EaRead/EaWrite at addresses biased to range edges +-1 and +-16 and to holes, EaDump over ranges of every alignment inside one device, across two devices, across and into holes; checked op by op against an owner[2^20] table; distinct = distinct scenario hash; non-trivial = the history contains a rejected Attach, an access to a hole, an overlapping Attach, or a dump with an unaligned start or crossing a device/hole boundary"
 }
